@@ -98,7 +98,7 @@ def run_runtime(prop, tier, seed, only=None, timeout=None):
         cmd += ["--only", only]
     try:
         p = subprocess.run(cmd, cwd=VERIF, env=env, capture_output=True,
-                           text=True, timeout=timeout or (3000 if tier == "thorough" else 600))
+                           text=True, timeout=timeout or (9000 if tier == "thorough" else 900))
     except subprocess.TimeoutExpired:
         return {"checks": [], "error": "runtime checks timed out"}
     lines = [ln for ln in p.stdout.splitlines() if ln.startswith("RUNTIME-JSON ")]
